@@ -25,9 +25,9 @@ RULE = ("case = (scenario variant, injector kind); inside: every abort index; a 
         "monitor_counters: runs per injector, events and deliveries checked")
 ASSUMPTIONS = ["abort = OptimizationAborted(USER_ABORT) raised by user code (observer, handler or evaluator), as BasicOptimizer.set_abort_callback does"]
 REQUIRED = {"quick": {"abort_runs.observer": 400, "abort_runs.handler": 400, "abort_runs.evaluator": 150, "events_checked": 15000, "deliveries_checked": 60000,
-                      "streams_checked": 2000, "latch_checked": 900, "later_steps_refused": 300, "nested_abort_runs": 200, "nested_plan_served_another_outer_plan_before": 100, "three_level_abort_runs": 600, "plan_functions_refused_after_abort": 900, "further_step_tried_during_finish_event": 1200, "basic_optimizer_abort_runs": 24, "__nontrivial__": 900},
+                      "streams_checked": 2000, "latch_checked": 900, "later_steps_refused": 300, "nested_abort_runs": 200, "abort_runs_with_nested_plans_on_their_own_context": 200, "nested_plan_served_another_outer_plan_before": 100, "three_level_abort_runs": 600, "plan_functions_refused_after_abort": 900, "further_step_tried_during_finish_event": 1200, "basic_optimizer_abort_runs": 24, "__nontrivial__": 900},
             "thorough": {"abort_runs.observer": 5000, "abort_runs.handler": 5000, "abort_runs.evaluator": 2000, "events_checked": 200000, "deliveries_checked": 1000000,
-                         "streams_checked": 25000, "latch_checked": 12000, "later_steps_refused": 6000, "nested_abort_runs": 4000, "nested_plan_served_another_outer_plan_before": 1500, "three_level_abort_runs": 7000, "plan_functions_refused_after_abort": 10000, "further_step_tried_during_finish_event": 14000, "basic_optimizer_abort_runs": 200, "__nontrivial__": 12000}}
+                         "streams_checked": 25000, "latch_checked": 12000, "later_steps_refused": 6000, "nested_abort_runs": 4000, "abort_runs_with_nested_plans_on_their_own_context": 3000, "nested_plan_served_another_outer_plan_before": 1500, "three_level_abort_runs": 7000, "plan_functions_refused_after_abort": 10000, "further_step_tried_during_finish_event": 14000, "basic_optimizer_abort_runs": 200, "__nontrivial__": 12000}}
 N = {"quick": 48, "thorough": 600}
 SCENARIOS = ["optimizer", "evaluator", "sequential", "nested", "nested3"]
 
@@ -55,6 +55,11 @@ class World:
         self.probe_outcome = None
         self.abort_in_evaluator = False
         self.muted = False
+        self.nested_own_context = False
+        self.stray = 0          # calls of an observer registered on the context of a nested plan (counted, not judged)
+
+    def count_stray(self):
+        self.stray += 1
 
     def see(self, event, party, party_kind, first_of_kind):
         if self.muted:
@@ -146,9 +151,18 @@ def build(scenario, rng, world, raise_at):
             ctx.add_observer(et, lambda e, tag=tag, n=n: world.see(e, tag, "observer", n == 0))
             observers.append((et, tag))
     plans, step_plan, steps = {}, {}, []
+    # nested plans may be built on a context of their own (another evaluator object, say): the events of their steps still travel
+    # up to the plan that runs them and reach the observers of that plan's context
+    own_context = bool(rng.random() < 0.5)
 
     def mkplan(name, parent=None, recorders=2):
-        plan = Plan(ctx)
+        if parent is not None and own_context:
+            own = OptimizerContext(evaluator=ev, plugin_manager=_pm())
+            own.add_observer(EventType.START_EVALUATION, lambda _e: world.count_stray())
+            plan = Plan(own)
+            world.nested_own_context = True
+        else:
+            plan = Plan(ctx)
         plans[name] = {"plan": plan, "handlers": [], "parent": parent}
         for n in range(recorders):
             tag = f"h:{name}:{n}"
@@ -496,6 +510,9 @@ def run_case(case, obs):
                 obs.count("nested_plan_served_another_outer_plan_before")
         if scenario == "nested3":
             obs.count("three_level_abort_runs")
+        if w.nested_own_context:
+            obs.count("abort_runs_with_nested_plans_on_their_own_context")
+            obs.count("observer_calls_on_the_context_of_a_nested_plan", w.stray)
         obs.nontrivial(case["i"], scenario, inj, k)
         tag = {"scenario": scenario, "injector": inj, "index": k}
         check_run(obs, w, outcomes, plans, step_plan, observers, steps, tag, (inj, k), scenario)
